@@ -20,7 +20,12 @@ def main():
     try:
         core.import_pydl()
         mod = importlib.import_module('harness.props.' + pid.lower())
-        mod.run(ctx)
+        if a.replay and hasattr(mod, 'replay'):
+            import json
+            with open(a.replay) as fh:
+                mod.replay(ctx, json.load(fh)['case'])
+        else:
+            mod.run(ctx)
         rc = ctx.finish()
     except core.MachineryError as ex:
         print('MACHINERY-ERROR %s: %s' % (pid, ex))
